@@ -168,6 +168,22 @@ func vhDefOptionalGroupPush() Rules { // push rule with a non-participating grou
 	}
 }
 
+// back-reference to a group that comes after a group which took no part in
+// the entering match (group numbers must keep their positions)
+func vhDefBackrefOptGroup() Rules {
+	return Rules{
+		"Root": {{"Open", `(x)?([ab])`, Push("H")}, {"C", `c`, nil}},
+		"H":    {{"End", `\2`, Pop()}, {"Any", `[abx]`, nil}},
+	}
+}
+
+// rule names that start with a non-ASCII character: lower-case letters (é, п),
+// an upper-case letter (É) and a letter without case (词); whether a rule is
+// elided is decided on the first character of its name
+func vhDefNonASCIINames() Rules {
+	return Rules{"Root": {{"étiquette", `a`, nil}, {"词", `b`, nil}, {"Éa", `c`, nil}, {"пробел", `d`, nil}, {"Z", `e`, nil}}}
+}
+
 func vhDefBackref() Rules { // heredoc-style back-reference
 	return Rules{
 		"Root": {{"Start", `<([a-c])`, Push("H")}, {"Ident", `[a-c]`, nil}},
